@@ -634,6 +634,8 @@ pub struct C09Case {
   pub subscribe_on: bool,
 }
 
+const REENTRANT_ITEM: i64 = 900;
+
 fn id_ops() -> BoxedStrategy<Op> {
   // operators whose output identifies the input item (values stay unique)
   prop_oneof![
@@ -656,15 +658,26 @@ pub fn c09_strategy(_ctx: &Ctx, for_c05: bool) -> BoxedStrategy<C09Case> {
     1 => Just(vec![Op::SubscribeOnNew, Op::ObserveOnNew]),
     1 => Just(vec![Op::SubscribeOnNew, Op::SubscribeOnNew]),
   ];
-  (pre, sched_ops, post, 0usize..=6, 0u8..=2, any::<bool>(), prop::option::weighted(if for_c05 { 0.97 } else { 0.35 }, 0u8..=3), sched_strategy())
-    .prop_map(move |(pre, mid, post, len, ending, hot, unsub, sched)| {
+  // C09 only: the subscriber's n-th callback (on the scheduler's thread) pushes one more item
+  // into the hot source - an emission from the worker itself must be queued like any other
+  let reentrant = prop::option::weighted(if for_c05 { 0.0001 } else { 0.25 }, 0usize..3);
+  (pre, sched_ops, post, 0usize..=6, 0u8..=2, any::<bool>(), prop::option::weighted(if for_c05 { 0.97 } else { 0.35 }, 0u8..=3), sched_strategy(), reentrant)
+    .prop_map(move |(pre, mid, post, len, ending, hot, unsub, sched, reentrant)| {
+      let subscribe_on = mid.contains(&Op::SubscribeOnNew);
+      let reentrant = if hot && !subscribe_on && !for_c05 { reentrant } else { None };
+      let order_free = |op: &Op| matches!(op, Op::Map(_) | Op::Filter(_));
+      let (pre, post): (Vec<Op>, Vec<Op>) = if reentrant.is_some() {
+        (pre.into_iter().filter(order_free).collect(), post.into_iter().filter(order_free).collect())
+      } else {
+        (pre, post)
+      };
       let ending = match ending {
+        _ if reentrant.is_some() => None,
         0 => Some(Ev::C),
         1 => Some(Ev::E(1)),
         _ => None,
       };
       let script = unique_script(0, len, ending);
-      let subscribe_on = mid.contains(&Op::SubscribeOnNew);
       // subscribe_on subscribes later, on the worker: what a hot source emits before that
       // is by definition not part of the subscription, so subscribe_on is paired with
       // synchronous (cold) sources only
@@ -697,7 +710,10 @@ pub fn c09_strategy(_ctx: &Ctx, for_c05: bool) -> BoxedStrategy<C09Case> {
         root,
         hots: if hot { vec![HotKind::Harness] } else { vec![] },
         hot_illformed: false, conn: None, conn_take: None,
-        recorders: vec![vec![]],
+        recorders: vec![match reentrant {
+          Some(at) => vec![Reaction { at, what: React::Emit(0, Ev::N(REENTRANT_ITEM)) }],
+          None => vec![],
+        }],
         actions: vec![Action::Subscribe(0)],
       };
       C09Case { cc: ConcCase { case, threads, sched }, script, hot, has_unsub: unsub.is_some(), subscribe_on }
@@ -777,9 +793,36 @@ fn c09_check_impl(c: &C09Case, c05_only: bool) -> Report {
   if c05_only {
     return rep;
   }
+  let reentrant = !c.cc.case.recorders[0].is_empty();
+  if reentrant {
+    // the script's items in order, and the item pushed from the callback exactly once, at
+    // whatever place the queue gave it
+    rep.classes.push("emission-from-the-worker's-callback".into());
+    let fired = !r.log.reactions_fired.is_empty();
+    if fired {
+      rep.classes.push("emission-from-the-worker's-callback:happened".into());
+    }
+    let own: Vec<Rk> = got.iter().filter(|k| !matches!(k, Rk::N(p) if p.as_i64() == REENTRANT_ITEM)).cloned().collect();
+    let extra = got.len() - own.len();
+    let exp_own: Vec<Rk> = c.script.iter().map(|e| match e {
+      Ev::N(v) => Rk::N(crate::val::P::I(*v)),
+      Ev::E(c) => Rk::E(*c),
+      Ev::C => Rk::C,
+    }).collect();
+    let ok_own = if c.has_unsub { exp_own.starts_with(&own) } else { own == exp_own };
+    if !ok_own {
+      rep.fail = fail(format!("received {} of the source's {}", show_trace(&own), show_trace(&exp_own)));
+      return rep;
+    }
+    if extra > 1 || (fired && !c.has_unsub && extra != 1) || (!fired && extra != 0) {
+      rep.fail = fail(format!("the item pushed from inside the callback was delivered {} time(s) (pushed: {})", extra, fired));
+      return rep;
+    }
+  }
   // C09: exactly the source's events, in order, terminal last (a prefix if unsubscribed)
   let expected = match c09_expected(c) {
-    Some(e) => e,
+    Some(e) if !reentrant => e,
+    Some(_) => got.clone(),
     None => return rep,
   };
   if c.has_unsub {
@@ -808,6 +851,15 @@ fn c09_check_impl(c: &C09Case, c05_only: bool) -> Report {
   for w in evs.windows(2) {
     if w[1].start < w[0].end {
       rep.fail = fail("two callbacks overlapped".into());
+      return rep;
+    }
+  }
+  // (whole callbacks, including what the subscriber did inside them)
+  let mut spans: Vec<(u64, u64)> = r.log.cb_spans.iter().filter(|s| s.0 == 0).map(|s| (s.1, s.2)).collect();
+  spans.sort();
+  for w in spans.windows(2) {
+    if w[1].0 < w[0].1 {
+      rep.fail = fail("a callback started while the previous one had not returned yet (nested or concurrent delivery)".into());
       return rep;
     }
   }
